@@ -190,6 +190,8 @@ def auto_discharge(prog, f, site, sym=None):
             consts = [op_const(o) for o in ops]
             tys = t.get('ty') or ''
             small = [c for c in consts if isinstance(c, int) and 0 <= c <= 65536]
+            if len(consts) == 2 and all(isinstance(c, int) and 0 <= c <= 65536 for c in consts):
+                return 'D3: sum of two small constants (%d + %d)' % (consts[0], consts[1])
             if small and _is_usize(f, ops, t):
                 return 'D3: usize position/length plus the constant %d (sequence lengths are bounded by isize::MAX)' % small[0]
             return None
@@ -211,7 +213,7 @@ def auto_discharge(prog, f, site, sym=None):
             ops = t.get('ops') or []
             if len(ops) == 2:
                 ln, ix = sym.op(ops[0]), sym.op(ops[1])
-                c = op_const(ops[1]); cl = op_const(ops[0])
+                c = _const_int(f, ops[1]); cl = _const_int(f, ops[0])
                 if isinstance(c, int) and isinstance(cl, int) and c < cl:
                     return 'D1: constant index %d into an array of length %d' % (c, cl)
                 for cond, val in dominating_facts(prog, f, site.block, sym):
@@ -357,6 +359,17 @@ def _balanced(e):
             if d < 0:
                 return False
     return d == 0
+
+
+def _const_int(f, op):
+    from .cfg import resolve_const
+    c = op_const(op)
+    if isinstance(c, int):
+        return c
+    r = resolve_const(f, defs_of(f), op)
+    if r is not None and isinstance(r.get('v'), int):
+        return r['v']
+    return None
 
 
 def _strip_ovf(e):
